@@ -523,6 +523,59 @@ class C08(Prop):
                     return f'{name}: the call of close() never returned'
         return None
 
+    def extra_checks(self, ctx):
+        """a session that refuses its connection from the constructor (close() / abort() scheduled before the message-processing
+        task has taken its first step - too many sessions, a banned peer): the connection-lost hook still runs exactly once,
+        the connection is lost and nothing is left behind"""
+        import asyncio
+        from harness.core import Failure
+        from harness import sessions
+        from aiorpcx import session
+        out, n = [], 0
+        for kind in ('rpc', 'msg'):
+            for transport in ('rs', 'us'):
+                for action in ('close', 'abort', 'close_later'):
+                    loop = sessions.new_loop()
+                    hooks = []
+                    try:
+                        base = session.RPCSession if kind == 'rpc' else session.MessageSession
+
+                        class S(base):
+                            def __init__(self, *a, **k):
+                                super().__init__(*a, **k)
+                                if action == 'close_later':
+                                    self.loop.call_later(0.02, lambda: self.loop.create_task(self.close()))
+                                else:
+                                    self.loop.create_task(self.close() if action == 'close' else self.abort())
+
+                            async def connection_lost(self):
+                                hooks.append(1)
+                                await super().connection_lost()
+                        proto, ft, s = sessions.attach(S, 'server', transport)
+
+                        async def main():
+                            await asyncio.sleep(1.0)
+                            await sessions.settle(10)
+                            pm = proto._process_messages_task
+                            return {'hooks': len(hooks), 'lost': bool(ft.lost), 'pm_done': pm.done(),
+                                    'left': sum(1 for x in asyncio.all_tasks(loop) if not x.done()) - 1}
+                        obs = loop.run_until_complete(main())
+                    finally:
+                        sessions.close_loop(loop)
+                    n += 1
+                    case = {'kind': 'refuse_at_start', 'session': kind, 'transport': transport, 'action': action}
+                    cl = None
+                    if obs['hooks'] != 1:
+                        cl = f"the connection-lost hook ran {obs['hooks']} times (the session closed its connection from its constructor)"
+                    elif not obs['lost'] or not obs['pm_done'] or obs['left']:
+                        cl = (f"after a session closed its connection from its constructor: lost={obs['lost']}, message processing "
+                              f"finished={obs['pm_done']}, {obs['left']} task(s) left")
+                    if cl:
+                        out.append(Failure(case, obs, cl))
+        ctx['extra_evals'] += n
+        ctx['notes'].append(f'sessions that close / abort their connection from the constructor: {n} scenarios')
+        return out[:3]
+
     def nontrivial(self, case, obs):
         if obs.get('skipped'):
             return False
